@@ -578,10 +578,11 @@ func drawStruct(t *rapid.T, idx int, exclFragile map[string]bool, forceJson bool
 			}
 		}
 	}
-	if !IncludeShapes["json-any-untagged"] {
-		// Whether an untagged field of type `any` is "nilable" (gets `json:"name,omitempty"` in the Mutable
-		// type) is not documented and currently depends on how go/types represents the alias `any`; the
-		// grammar stays neutral: such a field always carries its own json tag, which is copied as it is.
+	if ExcludeShapes["json-any-untagged"] {
+		// An untagged field of type `any` is nilable: the statement of C15 demands `omitempty` for it exactly as
+		// for a field spelled `interface{}`. (go/types represents `any` as an alias node under go 1.23
+		// semantics; gombok's IsNilable did not look through it - repaired, see known_findings.json.) The
+		// switch VERIF_C07_EXCLUDE_SHAPES=json-any-untagged gives such fields an explicit json tag instead.
 		for i, f := range s.fields {
 			if f.t.kind == "json-any" && !strings.Contains(f.tag, "json") {
 				tag := fmt.Sprintf(`json:"jany%d"`, i)
